@@ -410,6 +410,10 @@ impl Model {
                     }
                 }
                 // absent (or just retired): create with the delta
+                if ts == 0 && floor == u64::MAX {
+                    // no automatic timestamp can exceed a retirement at the end of time
+                    return Self::expect(t, op, Out::err("OlderTimestamp"), out);
+                }
                 let ts = if ts != 0 {
                     if ts <= floor {
                         return Self::expect(t, op, Out::err("OlderTimestamp"), out);
